@@ -152,6 +152,26 @@ def build_node(ns: dict, path: str, built: Built, *, src_toggle=[0]):
         built.subs[name] = sub
         node = sub.graph.as_node(name=name) if ns.get("as_name", True) else sub.graph.as_node()
         m = ns.get("map")
+        batches = list(ns.get("rename_in") or [])
+        if m and "at" in m and m["at"] < len(batches):
+            # map_over is called after the first m["at"] rename batches, the remaining batches rename the MAPPING node;
+            # m["over"] / a clone list are written in the final external names, as everywhere in the spec
+            names0 = list(node.inputs)
+
+            def fwd(bs):
+                cur = {n: n for n in names0}
+                for b in bs:
+                    cur = {o: b.get(c, c) for o, c in cur.items()}
+                return cur
+
+            final_inv = {v: k for k, v in fwd(batches).items()}
+            at_map = fwd(batches[: m["at"]])
+            node = apply_renames(node, {"rename_in": batches[: m["at"]]})
+            clone = m.get("clone", False)
+            if isinstance(clone, list):
+                clone = [at_map[final_inv[c]] for c in clone]
+            node = node.map_over(*[at_map[final_inv[e]] for e in m["over"]], mode=m.get("mode", "zip"), error_handling=m.get("err", "raise"), clone=clone)
+            return apply_renames(node, {**ns, "rename_in": batches[m["at"] :]})
         node = apply_renames(node, ns)
         if m and WARM[0]:
             _warm_node(node)
